@@ -600,7 +600,7 @@ func classify(m *parser.ASTNode, f *failure) string {
 				}
 			}
 		})
-		if sk != "" {
+		if sk != "" && onlyOperatorsAndLeaves(m) {
 			return "paren:other:" + sk
 		}
 	}
@@ -674,6 +674,18 @@ func firstBlankLineCtx(m *parser.ASTNode) string {
 		}
 	})
 	return res
+}
+
+// onlyOperatorsAndLeaves tells whether a (shrunk) tree is a pure operator
+// nesting over leaves.
+func onlyOperatorsAndLeaves(m *parser.ASTNode) bool {
+	ok := true
+	walk(m, func(n, _ *parser.ASTNode, _ int) {
+		if !isOp(n) && len(n.Children) > 0 {
+			ok = false
+		}
+	})
+	return ok
 }
 
 func fewOrMany(n int) string {
